@@ -11,7 +11,7 @@ def price_guards(price_field, v):
     return [('price-parses', ('is', ('rcall', 'from_str', (M(v, price_field),)), 'Ok')),
             ('price-not-zero', ('val', EQ(d, I(0)), False)),
             ('price-not-negative', ('val', ('is_neg', d), False)),
-            ('price-within-precision', ('val', EQ(('fract', MUL(d, ('pow', I(10), F(CFG, 'price_precision')))), I(0)), True))]
+            ('price-within-precision', ('val', EQ(('fract', MUL(d, POW10(F(CFG, 'price_precision')))), I(0)), True))]
 
 def attrs_ok(p, listfield):
     """required attributes: list empty, or attribute query of the sender succeeded and any(required, |x| !names.contains(x)) is false"""
@@ -184,7 +184,7 @@ def refusal_tables(v):
         ('price-unparsable', 'L', lambda e: isf(e, ('is', ('rcall', 'from_str', (M(v, 'price'),)), 'Err'))),
         ('price-zero', 'L', lambda e: isf(e, ('val', EQ(d, I(0)), True))),
         ('price-negative', 'L', lambda e: isf(e, ('val', ('is_neg', d), True))),
-        ('price-too-precise', 'L', lambda e: isf(e, ('val', EQ(('fract', MUL(d, ('pow', I(10), F(CFG, 'price_precision')))), I(0)), False))),
+        ('price-too-precise', 'L', lambda e: isf(e, ('val', EQ(('fract', MUL(d, POW10(F(CFG, 'price_precision')))), I(0)), False))),
         ('attribute-query-fails', 'L', lambda e: isf(e, ('is', ('attr_query', SENDER), 'Err'))),
         ('attribute-missing', 'L', lambda e: e['fact'] is not None and e['fact'][0] == 'val' and e['fact'][2] is True and e['fact'][1][0] == 'call' and e['fact'][1][1].endswith('::any') and e['fact'][1][2][0] == ('iter', F(CFG, req))),
         ('id-already-on-book', 'L', lambda e: isf(e, ('is', ('mayload_opt', side, M(v, 'id'), 0), 'Some'))),
